@@ -1,6 +1,7 @@
 package main
 
 import (
+	"crypto/elliptic"
 	"fmt"
 	"math/big"
 
@@ -22,6 +23,7 @@ type roundValues struct {
 	ut     map[int][2]*crypto.ECPoint // round 8: U_i, T_i
 	s      map[int]*big.Int           // round 9: s_i
 	broken []string
+	ec     elliptic.Curve // nil = secp256k1
 }
 
 func newRoundValues() *roundValues {
@@ -39,7 +41,7 @@ func (rv *roundValues) record(c *sched.Copy) {
 		if len(xs) < k+2 {
 			return nil
 		}
-		p, err := crypto.NewECPoint(tss.S256(), xs[k], xs[k+1])
+		p, err := crypto.NewECPoint(curveOr(rv.ec), xs[k], xs[k+1])
 		if err != nil {
 			return nil
 		}
@@ -97,7 +99,8 @@ func sumPoints(ps []*crypto.ECPoint) (*crypto.ECPoint, bool) {
 // roundOracles: the per-round algebra of Proofs/SignRoundsProofs.v checked on the values observed on the wire.
 // kis, gs: the nonce shares fixed through the reader (sorted-signer order); x: the secret the signers' shares interpolate to.
 func roundOracles(r *vc.Run, rv *roundValues, n int, kis, gs []*big.Int, m, x *big.Int, sigR, sigS []byte, replay string) {
-	q := tss.S256().Params().N
+	ec := curveOr(rv.ec)
+	q := ec.Params().N
 	if m.Cmp(q) >= 0 || len(sigR) == 0 {
 		return
 	}
@@ -130,7 +133,7 @@ func roundOracles(r *vc.Run, rv *roundValues, n int, kis, gs []*big.Int, m, x *b
 		gammas = append(gammas, rv.gamma[i])
 	}
 	G, ok := sumPoints(gammas)
-	if !ok || !G.Equals(crypto.ScalarBaseMult(tss.S256(), g)) {
+	if !ok || !G.Equals(crypto.ScalarBaseMult(ec, g)) {
 		r.Violate("ecdsa-round4-gamma", "the de-committed Gamma_i do not sum to (sum gamma_i)*G", replay)
 		return
 	}
@@ -138,7 +141,7 @@ func roundOracles(r *vc.Run, rv *roundValues, n int, kis, gs []*big.Int, m, x *b
 		return
 	}
 	R := G.ScalarMult(new(big.Int).ModInverse(delta, q))
-	if !R.Equals(crypto.ScalarBaseMult(tss.S256(), new(big.Int).ModInverse(k, q))) {
+	if !R.Equals(crypto.ScalarBaseMult(ec, new(big.Int).ModInverse(k, q))) {
 		r.Violate("ecdsa-round5-R", "delta^-1 * Gamma is not k^-1 * G", replay)
 	}
 	rx := R.X()
